@@ -8,6 +8,10 @@
 // placeholder, and the live configuration must be deep-equal to an independently loaded twin
 // afterwards. Part B: every credential header x spelling x value form is sent through a real
 // httpp.Server with a capturing logger; no log line may contain the value.
+// Both parts also enumerate the LENGTH of the secret (t-1, t, t+1 for every power of two and
+// of ten up to 64 KiB, more in the thorough tier) with secrets made of distinct 8-byte chunks
+// (canary.go), so that a part of a secret shown anywhere (truncation, "first N bytes", tail)
+// is recognised, not only the whole value.
 package main
 
 import (
@@ -38,7 +42,7 @@ import (
 type admitAll struct{}
 
 func (admitAll) Authenticate(*auth.Request) (string, *auth.Error) { return "", nil }
-func (admitAll) RefreshJWTJWKS()                                   {}
+func (admitAll) RefreshJWTJWKS()                                  {}
 
 func must(err error) {
 	if err != nil {
@@ -75,6 +79,7 @@ type secretPos struct {
 	where    string // human readable
 	stored   string
 	canaries []string
+	val      int // number in the canary set + 1 when the secret is a length-parametrised one (found by canarySet.Scan, not by canaries)
 }
 
 type cfgCase struct {
@@ -102,7 +107,7 @@ func usersConfigs(maxUsers int, encs []int) []cfgCase {
 			stored, can := secret(e, n)
 			fmt.Fprintf(&y, "- user: usr%d\n  pass: '%s'\n  permissions:\n  - action: publish\n  - action: api\n", i, stored)
 			if e != 0 {
-				c.secrets = append(c.secrets, secretPos{fmt.Sprintf("authInternalUsers[%d].pass (%s)", i, encNames[e]), stored, can})
+				c.secrets = append(c.secrets, secretPos{fmt.Sprintf("authInternalUsers[%d].pass (%s)", i, encNames[e]), stored, can, 0})
 			}
 		}
 		y.WriteString("paths:\n  plainpath:\n    source: publisher\n  '~^re.*$':\n    source: publisher\n")
@@ -134,7 +139,7 @@ func deprecatedConfigs(encs []int) []cfgCase {
 				n++
 				s, can := secret(e, n)
 				stored[i] = s
-				c.secrets = append(c.secrets, secretPos{pos[i] + " (" + encNames[e] + ")", s, can})
+				c.secrets = append(c.secrets, secretPos{pos[i] + " (" + encNames[e] + ")", s, can, 0})
 			}
 		}
 		var y strings.Builder
@@ -170,6 +175,65 @@ func deprecatedConfigs(encs []int) []cfgCase {
 		}
 		if k < 0 {
 			break
+		}
+	}
+	return out
+}
+
+// lengthConfigs: for every length n, one configuration with two internal users (plain / sha256-form password of
+// n bytes) and two configurations with all 6 deprecated positions set to passwords of n bytes (plain and
+// sha256-form alternating, both phases), every password a different numbered secret of the canary set.
+func lengthConfigs(set *canarySet, lens []int, firstIdx int) []cfgCase {
+	var out []cfgCase
+	pos := []string{"pathDefaults.publishPass", "pathDefaults.readPass", "paths[st].publishPass", "paths[st].readPass",
+		"paths[~^re.*$].publishPass", "paths[~^re.*$].readPass"}
+	mk := func(c *cfgCase, where string, n int, sha bool) string {
+		enc := "plain"
+		if sha {
+			enc = "sha256-form"
+		}
+		where = fmt.Sprintf("%s (%s, %d bytes)", where, enc, n)
+		v := set.New(n, where, firstIdx+len(out))
+		stored := set.Text(v)
+		if sha {
+			stored = "sha256:" + stored
+		}
+		c.secrets = append(c.secrets, secretPos{where: where, stored: stored, canaries: []string{stored}, val: v + 1})
+		return stored
+	}
+	for _, n := range lens {
+		c := cfgCase{name: fmt.Sprintf("users-len%d", n), paths: []string{"plainpath", "~^re.*$"}}
+		var y strings.Builder
+		y.WriteString("rtspAuthMethods: [basic]\nauthInternalUsers:\n")
+		for i := 0; i < 2; i++ {
+			fmt.Fprintf(&y, "- user: usr%d\n  pass: '%s'\n  permissions:\n  - action: publish\n  - action: api\n", i,
+				mk(&c, fmt.Sprintf("authInternalUsers[%d].pass", i), n, i == 1))
+		}
+		y.WriteString("paths:\n  plainpath:\n    source: publisher\n  '~^re.*$':\n    source: publisher\n")
+		c.yaml = y.String()
+		out = append(out, c)
+
+		for phase := 0; phase < 2; phase++ {
+			c := cfgCase{name: fmt.Sprintf("deprecated-len%d-phase%d", n, phase), paths: []string{"st", "~^re.*$"}}
+			stored := make([]string, len(pos))
+			for i := range pos {
+				stored[i] = mk(&c, pos[i], n, i%2 == phase)
+			}
+			var y strings.Builder
+			y.WriteString("rtspAuthMethods: [basic]\npathDefaults:\n")
+			field := func(indent, key, val, userKey string) {
+				fmt.Fprintf(&y, "%s%s: '%s'\n%s%s: someuser\n", indent, key, val, indent, userKey)
+			}
+			field("  ", "publishPass", stored[0], "publishUser")
+			field("  ", "readPass", stored[1], "readUser")
+			y.WriteString("paths:\n  st:\n    source: publisher\n")
+			field("    ", "publishPass", stored[2], "publishUser")
+			field("    ", "readPass", stored[3], "readUser")
+			y.WriteString("  '~^re.*$':\n    source: publisher\n")
+			field("    ", "publishPass", stored[4], "publishUser")
+			field("    ", "readPass", stored[5], "readUser")
+			c.yaml = y.String()
+			out = append(out, c)
 		}
 	}
 	return out
@@ -211,24 +275,37 @@ var (
 	placeholder   string
 )
 
-func partA(r *vcommon.Run, tmp string, client *httplib.Client) {
+func partA(r *vcommon.Run, tmp string, client *httplib.Client, set *canarySet) {
 	encs := []int{0, 1, 2}
+	lens := lengthSet(16, 4)
 	if r.Thorough() {
 		encs = []int{0, 1, 2, 3}
+		lens = lengthSet(17, 5)
 	}
 	cfgs := usersConfigs(3, []int{0, 1, 2, 3})
 	cfgs = append(cfgs, deprecatedConfigs(encs)...)
+	nEnum := len(cfgs)
+	cfgs = append(cfgs, lengthConfigs(set, lens, len(cfgs))...)
+	// visit the large configurations first (they take longest), deterministic
+	order := make([]int, 0, len(cfgs))
+	for i := len(cfgs) - 1; i >= nEnum; i-- {
+		order = append(order, i)
+	}
+	for i := 0; i < nEnum; i++ {
+		order = append(order, i)
+	}
 
 	viols := make([][]pendingViol, len(cfgs))
 	nSecrets, nResp, nRedacted := 0, 0, 0
 	var mu sync.Mutex
 	routesSeen := map[string]bool{}
 
-	httplib.RunN(len(cfgs), 32, func(ci int) {
+	httplib.RunN(len(cfgs), 32, func(oi int) {
+		ci := order[oi]
 		c := cfgs[ci]
 		add := func(key, what string, rep map[string]any) {
 			rep["config"] = c.name
-			rep["yaml"] = c.yaml
+			rep["yaml"] = vcommon.Short(c.yaml, 2000)
 			viols[ci] = append(viols[ci], pendingViol{key, what, rep})
 		}
 		live, err := httplib.LoadConf(tmp, c.yaml)
@@ -289,7 +366,17 @@ func partA(r *vcommon.Run, tmp string, client *httplib.Client) {
 			routesSeen[fmt.Sprintf("%s -> %d", route, resp.Status)] = true
 			mu.Unlock()
 			hay := append([]byte(fmt.Sprint(resp.Header)), resp.Body...)
+			for _, h := range set.Scan(hay) {
+				cv := set.vals[h.v]
+				add("api-response-discloses|"+route+"|"+strings.SplitN(cv.where, " ", 2)[0],
+					fmt.Sprintf("GET %s discloses %s: bytes [%d,%d) of the %d-byte secret are in the response", u, cv.where, h.off, h.off+h.n, cv.n),
+					map[string]any{"url": u, "secret": cv.where, "status": resp.Status, "secret_length": cv.n, "disclosed_offset": h.off, "disclosed_bytes": h.n,
+						"context": vcommon.Short(string(hay[max(0, h.pos-80):min(len(hay), h.pos+80)]), 200)})
+			}
 			for _, s := range c.secrets {
+				if s.val != 0 {
+					continue
+				}
 				for _, can := range s.canaries {
 					if bytes.Contains(hay, []byte(can)) {
 						add("api-response-discloses|"+route+"|"+strings.SplitN(s.where, " ", 2)[0],
@@ -317,8 +404,8 @@ func partA(r *vcommon.Run, tmp string, client *httplib.Client) {
 					nRedacted++
 					mu.Unlock()
 					if val != ph {
-						add("placeholder-not-fixed|"+route, fmt.Sprintf("GET %s: password position %s holds %q, not the placeholder %q", u, path, val, ph),
-							map[string]any{"url": u, "position": path, "value": val})
+						add("placeholder-not-fixed|"+route, fmt.Sprintf("GET %s: password position %s holds %q (%d bytes), not the placeholder %q", u, path, vcommon.Short(val, 80), len(val), ph),
+							map[string]any{"url": u, "position": path, "value": vcommon.Short(val, 400), "value_length": len(val)})
 					}
 				})
 			}
@@ -336,9 +423,10 @@ func partA(r *vcommon.Run, tmp string, client *httplib.Client) {
 			}
 			chk := func(where string, l, t *conf.Credential) {
 				if (l == nil) != (t == nil) || (l != nil && *l != *t) {
-					what += fmt.Sprintf("; %s is now %v", where, l)
 					if l != nil {
-						what += fmt.Sprintf(" (%q)", *l)
+						what += fmt.Sprintf("; %s is now %q", where, vcommon.Short(string(*l), 80))
+					} else {
+						what += fmt.Sprintf("; %s is now unset", where)
 					}
 				}
 			}
@@ -372,6 +460,8 @@ func partA(r *vcommon.Run, tmp string, client *httplib.Client) {
 	}
 	sort.Strings(rs)
 	r.Set("configurations", len(cfgs))
+	r.Set("configurations_of_the_length_dimension", len(cfgs)-nEnum)
+	r.Set("password_lengths", lens)
 	r.Set("secret_positions", nSecrets)
 	r.Set("api_responses_scanned", nResp)
 	r.Set("password_positions_holding_the_placeholder", nRedacted)
@@ -380,7 +470,8 @@ func partA(r *vcommon.Run, tmp string, client *httplib.Client) {
 	if nRedacted == 0 || nSecrets == 0 {
 		vcommon.Harness("vacuous part A: secrets=%d redacted positions=%d", nSecrets, nRedacted)
 	}
-	r.Sample(map[string]any{"config": cfgs[len(cfgs)-1].name, "yaml": cfgs[len(cfgs)-1].yaml})
+	r.Sample(map[string]any{"config": cfgs[nEnum-1].name, "yaml": cfgs[nEnum-1].yaml})
+	r.Sample(map[string]any{"config": cfgs[nEnum+3*8].name, "yaml": cfgs[nEnum+3*8].yaml})
 }
 
 // ---------------------------------------------------------------------------------------
@@ -405,10 +496,35 @@ func spellings(name string) []string {
 	return u
 }
 
-func partB(r *vcommon.Run, client *httplib.Client) {
+var hdrForms = []struct {
+	name, pre, suf string
+	quantum        int // the secret part's length is a multiple of this
+}{
+	{"raw", "", "", 1},
+	{"bearer", "Bearer ", "", 1},
+	{"basic", "Basic ", "", 4},
+	{"cookie", "session=", "; other=1", 1},
+}
+
+// lenCase is one request of the length dimension: header `name` sent with one or two values, each
+// prefix + numbered secret + suffix.
+type lenCase struct {
+	name, desc string
+	form       int
+	vals       []int
+	marker     string
+}
+
+type bPlan struct {
+	names, inCode []string
+	lens          []int
+	lenCases      []lenCase
+}
+
+func headerNames() (names, inCode []string) {
 	// the statement names Authorization and Cookie "or similar credential header"; the similar ones are fixed here
-	names := []string{"Authorization", "Cookie", "Proxy-Authorization", "Set-Cookie", "X-Api-Key", "X-Auth-Token"}
-	inCode := httpp.VerifC07HeadersToRedact()
+	names = []string{"Authorization", "Cookie", "Proxy-Authorization", "Set-Cookie", "X-Api-Key", "X-Auth-Token"}
+	inCode = httpp.VerifC07HeadersToRedact()
 	for _, n := range inCode {
 		found := false
 		for _, m := range names {
@@ -420,6 +536,61 @@ func partB(r *vcommon.Run, client *httplib.Client) {
 			names = append(names, n)
 		}
 	}
+	return
+}
+
+// planB issues the secrets of part B's length dimension: every header name x value form x total value length
+// of the length set (single value), and for the raw form also (16-byte value, n-byte value) and (n-byte value,
+// 16-byte value) in one request.
+func planB(r *vcommon.Run, set *canarySet) *bPlan {
+	p := &bPlan{lens: lengthSet(16, 4)}
+	if r.Thorough() {
+		p.lens = lengthSet(19, 6)
+	}
+	p.names, p.inCode = headerNames()
+	for _, name := range p.names {
+		for fi, f := range hdrForms {
+			seen := map[int]bool{}
+			for _, total := range p.lens {
+				n := total - len(f.pre) - len(f.suf)
+				if n < 1 {
+					continue
+				}
+				n = (n + f.quantum - 1) / f.quantum * f.quantum
+				if seen[n] {
+					continue
+				}
+				seen[n] = true
+				total = n + len(f.pre) + len(f.suf)
+				where := fmt.Sprintf("header %s (%s, value of %d bytes)", name, f.name, total)
+				idx := len(p.lenCases)
+				c := lenCase{name: name, form: fi, desc: fmt.Sprintf("%s %s len=%d", name, f.name, total), marker: fmt.Sprintf("VISIBLElen%dz", idx)}
+				c.vals = []int{set.New(n, where, idx)}
+				p.lenCases = append(p.lenCases, c)
+				if fi != 0 {
+					continue
+				}
+				for order := 0; order < 2; order++ {
+					idx := len(p.lenCases)
+					c := lenCase{name: name, form: fi, desc: fmt.Sprintf("%s %s len=%d dup-order=%d", name, f.name, total, order),
+						marker: fmt.Sprintf("VISIBLElen%dz", idx)}
+					short := set.New(16, fmt.Sprintf("header %s (%s, value of 16 bytes next to one of %d bytes)", name, f.name, total), idx)
+					long := set.New(n, fmt.Sprintf("header %s (%s, value of %d bytes next to one of 16 bytes)", name, f.name, total), idx)
+					if order == 0 {
+						c.vals = []int{short, long}
+					} else {
+						c.vals = []int{long, short}
+					}
+					p.lenCases = append(p.lenCases, c)
+				}
+			}
+		}
+	}
+	return p
+}
+
+func partB(r *vcommon.Run, client *httplib.Client, set *canarySet, plan *bPlan) {
+	names, inCode := plan.names, plan.inCode
 
 	lg := &httplib.Logger{Capture: true}
 	s := &httpp.Server{
@@ -485,6 +656,23 @@ func partB(r *vcommon.Run, client *httplib.Client) {
 
 	nErr := 0
 	var mu sync.Mutex
+	// length dimension first (the largest requests), then the spelling/form/method/multiplicity cases
+	httplib.RunN(len(plan.lenCases), 64, func(oi int) {
+		c := plan.lenCases[len(plan.lenCases)-1-oi]
+		f := hdrForms[c.form]
+		var hs [][2]string
+		for _, v := range c.vals {
+			hs = append(hs, [2]string{c.name, f.pre + set.Text(v) + f.suf})
+		}
+		hs = append(hs, [2]string{"X-Harmless", c.marker})
+		resp := client.Do(httplib.Req{Method: "GET", URL: base, Header: hs})
+		r.Eval(1)
+		if resp.Err != nil || resp.Status != 200 {
+			mu.Lock()
+			nErr++
+			mu.Unlock()
+		}
+	})
 	httplib.RunN(len(cases), 64, func(i int) {
 		c := cases[i]
 		body := ""
@@ -536,6 +724,61 @@ func partB(r *vcommon.Run, client *httplib.Client) {
 	if nVisible != len(cases) {
 		vcommon.Harness("part B: only %d of %d requests were dumped by the logger (harmless marker missing): dump not observed", nVisible, len(cases))
 	}
+
+	// length dimension: no part (>= 15 bytes, or the whole of a shorter one) of any secret anywhere in the log ...
+	lviol := map[int][]pendingViol{}
+	for _, h := range set.Scan([]byte(all)) {
+		cv := set.vals[h.v]
+		if !strings.HasPrefix(cv.where, "header ") {
+			vcommon.Harness("part B: the request log contains a configuration secret (%s)", cv.where)
+		}
+		c := plan.lenCases[cv.owner]
+		lviol[cv.owner] = append(lviol[cv.owner], pendingViol{"request-dump-discloses|" + http.CanonicalHeaderKey(c.name),
+			fmt.Sprintf("debug log contains bytes [%d,%d) of the %d-byte secret sent in %s (%s)", h.off, h.off+h.n, cv.n, cv.where, c.desc),
+			map[string]any{"case": c.desc, "header": c.name, "form": hdrForms[c.form].name, "secret_length": cv.n, "disclosed_offset": h.off,
+				"disclosed_bytes": h.n, "log_context": vcommon.Short(all[max(0, h.pos-300):min(len(all), h.pos+100)], 400)}})
+	}
+	// ... and a secret too short to be searched for (digits) is not in the header's own line of the request's dump
+	dumps := map[string]string{}
+	for _, l := range lines {
+		if i := strings.Index(l, "X-Harmless: VISIBLElen"); i >= 0 {
+			m := l[i+len("X-Harmless: "):]
+			if j := strings.IndexByte(m, 'z'); j >= 0 {
+				dumps[m[:j+1]] = l
+			}
+		}
+	}
+	nShort := 0
+	for ci, c := range plan.lenCases {
+		d, ok := dumps[c.marker]
+		if !ok {
+			vcommon.Harness("part B: request %q was not dumped by the logger (harmless marker missing): dump not observed", c.desc)
+		}
+		for _, v := range c.vals {
+			if set.vals[v].n >= chunkW {
+				continue
+			}
+			nShort++
+			sec := set.Text(v)
+			for _, hl := range strings.Split(d, "\r\n") {
+				k, val, ok := strings.Cut(hl, ": ")
+				if ok && http.CanonicalHeaderKey(k) == http.CanonicalHeaderKey(c.name) && strings.Contains(val, sec) {
+					lviol[ci] = append(lviol[ci], pendingViol{"request-dump-discloses|" + http.CanonicalHeaderKey(c.name),
+						fmt.Sprintf("debug dump of the request shows the %d-byte secret sent in %s (%s)", len(sec), set.vals[v].where, c.desc),
+						map[string]any{"case": c.desc, "header": c.name, "form": hdrForms[c.form].name, "secret": sec, "dump_line": hl}})
+				}
+			}
+		}
+		r.Distinct("dump|" + c.desc)
+	}
+	for ci := range plan.lenCases {
+		for _, v := range lviol[ci] {
+			r.Violation(v.key, v.what, v.rep)
+		}
+	}
+	r.Set("header_value_lengths", plan.lens)
+	r.Set("request_dump_length_cases", len(plan.lenCases))
+	r.Set("request_dump_short_secrets_checked_in_own_line", nShort)
 	r.Set("header_names", names)
 	r.Set("header_names_in_code", inCode)
 	r.Set("request_dump_cases", len(cases))
@@ -558,16 +801,32 @@ func main() {
 	r.Rule = "A: all internal-user lists of length 0..3 over password encodings {empty, plain, sha256, argon2} (85) plus all assignments of " +
 		"{unset, plain, sha256[, argon2 in thorough]} to the 6 deprecated password positions (defaults/static path/regexp path x publish/read: 729 [4096]) " +
 		"x every parameter-less GET route of the API, 12 pages of config/paths/list and config/paths/get of every path; " +
-		"B: every credential header name x 4 spellings x 4 value forms x GET/POST x single/duplicated, plus all ordered pairs of names; " +
+		"plus, for every password length n next to a power of two <= 2^16 [2^17] or a power of ten <= 10^4 [10^5] (t-1, t, t+1: 58 [64] lengths), " +
+		"one configuration with two internal users and two with all 6 deprecated positions holding n-byte passwords (plain and sha256-form), " +
+		"each password made of distinct 8-byte chunks so that any 15 leaked bytes of it are recognised anywhere in a response; " +
+		"B: every credential header name x 4 spellings x 4 value forms x GET/POST x single/duplicated, plus all ordered pairs of names, " +
+		"plus every name x value form {raw, Bearer, Basic, cookie} x total value length of the same length set up to 2^16 / 10^4 [2^19 / 10^6] " +
+		"(and, raw form, a 16-byte value before/after the n-byte value of the same header), the whole log scanned for any 15-byte part of any value; " +
 		"distinct = set of secret positions of a configuration / request-dump case"
-	partA(r, tmp, client)
-	partB(r, client)
+	set := &canarySet{}
+	set.selfTest()
+	plan := planB(r, set) // all secrets are issued before the first scan
+	t0 := time.Now()
+	partA(r, tmp, client, set)
+	t1 := time.Now()
+	partB(r, client, set, plan)
+	fmt.Fprintf(os.Stderr, "[c07] part A %.1fs, part B %.1fs\n", t1.Sub(t0).Seconds(), time.Since(t1).Seconds())
+	r.Set("length_parametrised_secrets", len(set.vals))
 	r.Exhaustive = true
 	r.Assumptions = []string{
 		"secrets = authInternalUsers[].pass and publishPass/readPass (statement); user names, TLS keys, hlsCDNSecret, source URLs with embedded credentials are outside the statement",
 		"\"similar credential header\" is fixed to Proxy-Authorization, Set-Cookie, X-Api-Key, X-Auth-Token (plus whatever the code's map lists); request line (query tokens) and request body are outside the statement",
 		"requests reach the logger through a real net/http server (HTTP/1.1), i.e. header names arrive canonicalised; dumpRequest is not called with hand-built non-canonical header maps",
 		"live configuration unchanged = encoding/json image identical and reflect.DeepEqual to an independently loaded twin of the same file",
+		"length dimension: a leaked part of a secret is recognised when it is >= 15 contiguous bytes (or the whole secret when that is shorter, >= 8 bytes); secrets of 1..7 bytes are " +
+			"decimal digits and are only looked for where they would be shown (password position of the JSON must hold the placeholder; the header's own line of the request's dump); " +
+			"a dump that shows only a few bytes of a credential (e.g. first/last 4) is not reported",
+		"header values are sent up to 65537 [1000001] bytes (net/http's default 1 MiB header limit applies above); transformed disclosures (hash, encoding, case change of the value) are not searched for",
 	}
 	os.RemoveAll(tmp)
 	r.Finish()
